@@ -1121,7 +1121,19 @@ struct G
         for (size_t i = 1; i < m.system.size(); ++i)
             m.prio_lt.push_back(cfg.priorities && rng.chance(0.4));
         if (cfg.priorities && rng.chance(0.3) && gsc.chans.size() >= 2)
-            m.chan_priority = "chan priority " + gsc.chans[0] + " < " + gsc.chans[1] + (rng.chance(0.5) ? " , default" : "") + ";";
+        {
+            // "default" may stand anywhere in the list, also first
+            const std::string &a = gsc.chans[0], &b = gsc.chans[1];
+            switch (rng.below(7)) {
+            case 0: m.chan_priority = "chan priority " + a + " < " + b + ";"; break;
+            case 1: m.chan_priority = "chan priority " + a + " < " + b + " , default;"; break;
+            case 2: m.chan_priority = "chan priority default < " + a + ";"; break;
+            case 3: m.chan_priority = "chan priority default , " + a + " < " + b + ";"; break;
+            case 4: m.chan_priority = "chan priority " + a + " < default < " + b + ";"; break;
+            case 5: m.chan_priority = "chan priority " + a + " , " + b + " < default;"; break;
+            default: m.chan_priority = "chan priority " + b + " < " + a + ";"; break;
+            }
+        }
         if (cfg.queries) {
             int nq = rng.range(1, 3);
             for (int i = 0; i < nq; ++i) {
